@@ -213,7 +213,7 @@ const CAP_IT: usize = 7;
 
 
 harnesses! {
-    iter_n3 [7] => h_iter(3, 0, false, tab_of(6)); //@ q=C12,C19,C05,C20 t=C07 to=600
+    iter_n3 [7] => h_iter(3, 0, false, tab_of(6)); //@ q=C12,C19,C05,C20,C07 to=600
     keys_n3 [7] => h_iter(3, 1, false, tab_of(6)); //@ q=C12,C19 t=C20 to=600
     values_n3 [7] => h_iter(3, 2, false, tab_of(6)); //@ q=C12,C19 t=C20 to=600
     drain_n3 [7] => h_iter(3, 3, false, tab_of(6)); //@ q=C12,C06,C02,C07,C20 t=C01 to=900
